@@ -124,7 +124,9 @@ func (o *Operations) archive(
 			}
 
 			// Read the source the same way in the size-counting pass and in the writing pass below (i.e. never through `io.WriterTo`): the encoded size of some formats depends on how the input is chunked
-			signer, sign, err := signature.Sign(struct{ io.Reader }{f}, writer.DriveIsRegular, o.pipes.Signature, o.crypto.Identity)
+			// Count what the source actually delivers: it might have grown or shrunk since `Info` was taken, and the recorded size has to be the size of the content that is archived
+			sourceCounter := &ioext.CounterReader{Reader: f}
+			signer, sign, err := signature.Sign(struct{ io.Reader }{sourceCounter}, writer.DriveIsRegular, o.pipes.Signature, o.crypto.Identity)
 			if err != nil {
 				return []*tar.Header{}, err
 			}
@@ -155,7 +157,7 @@ func (o *Operations) archive(
 			if hdr.PAXRecords == nil {
 				hdr.PAXRecords = map[string]string{}
 			}
-			hdr.PAXRecords[records.STFSRecordUncompressedSize] = strconv.Itoa(int(hdr.Size))
+			hdr.PAXRecords[records.STFSRecordUncompressedSize] = strconv.Itoa(sourceCounter.BytesRead)
 			signature, err := sign()
 			if err != nil {
 				return []*tar.Header{}, err
